@@ -6,6 +6,7 @@ Cap = 2
 AllowRetire = TRUE
 FixRetire = TRUE
 FixReset = TRUE
+FixRetireSet = TRUE
 INVARIANTS AtMostOnce JoinAfterDone QueueOK
 PROPERTY Live
 CONSTANT defaultInitValue = defaultInitValue
